@@ -32,6 +32,8 @@ CONSTANTS
 VARIABLES S, ready, budget
 vars == <<S, ready, budget>>
 
+WithComm == FALSE        \* (overridden in MC modules) the process is constructed with a communicator
+
 Terminal == {"FINISHED", "EXCEPTED", "KILLED"}
 Live     == {"CREATED", "RUNNING", "WAITING"}
 Allowed(st) == CASE st = "CREATED" -> {"RUNNING", "KILLED", "EXCEPTED"}
@@ -180,7 +182,16 @@ FutRead(s) == CASE s.fut.st = "pending"   -> Err(s, "InvalidStateError")
                 [] s.fut.st = "cancelled" -> Err(s, "CancelledError")
                 [] OTHER -> Ok(s, None)
 
-OnEntered(s) ==                           \* s.st is already the new label
+\* the state change broadcast at the end of Process.on_entered; ConnectionClosed, ChannelInvalidStateError and
+\* kiwipy.TimeoutError are tolerated (logged), anything else fails the transition
+Tolerated == {"ConnectionClosed", "ChannelInvalidStateError", "TimeoutError"}
+Broadcast(s, last) ==
+  IF ~s.comm THEN Ok(s, None)
+  ELSE LET h == Hook(s, "bcast") IN
+       IF h.exc = NoExc THEN Ok(Note(h.s, <<"bcast", "state_changed", last, s.st>>), None)
+       ELSE IF h.exc \in Tolerated THEN Ok(h.s, None) ELSE h
+
+OnEnteredHooks(s) ==                      \* s.st is already the new label
   CASE s.st = "RUNNING"  -> Hook(Listeners(s, "running", None), "on_running")
     [] s.st = "WAITING"  -> Hook(Listeners(s, "waiting", None), "on_waiting")
     [] s.st = "FINISHED" ->
@@ -191,6 +202,7 @@ OnEntered(s) ==                           \* s.st is already the new label
     [] s.st = "KILLED"   -> Then(FutRead([s EXCEPT !.killing = 0]),
                                  LAMBDA t : Hook(Listeners(t, "killed", t.cur.val), "on_killed"))
     [] OTHER -> Ok(s, None)
+OnEntered(s, last) == Then(OnEnteredHooks(s), LAMBDA t : Broadcast(t, last))
 
 OnExiting(s) ==
   CASE s.st = "WAITING" -> Hook(s, "on_exit_waiting")
@@ -200,7 +212,7 @@ OnExiting(s) ==
 \* Process.on_terminated -> close() -> on_close: cleanups (exceptions swallowed), callbacks dropped
 OnTerminated(s) ==
   IF s.closed THEN Ok(s, None)
-  ELSE LET c  == Hook(Note(s, <<"cleanup">>), "cleanup")     \* a raising cleanup is logged and swallowed
+  ELSE LET c  == Hook(Note([s EXCEPT !.subs = FALSE], <<"cleanup">>), "cleanup")   \* cleanups: unsubscribe (rpc, broadcast), then the user's; a raising cleanup is logged and swallowed
            s1 == [c.s EXCEPT !.closed = TRUE, !.cleaned = @ + 1]
            blocked == s1.task.pc \in {"awaitPaused", "awaitWF"} /\ ~s1.task.woken
            s2 == IF "F7" \in Fixes THEN Wake(Wake(s1, "awaitPaused"), "awaitWF")
@@ -244,7 +256,7 @@ EnterNext(s, new) ==                      \* _enter_next_state
                            !.mon.resumed = IF new.label = "WAITING" THEN FALSE ELSE @,
                            !.bad = IF last \in Terminal THEN @ \cup {"leftTerminal"} ELSE @]
      IN IF s1.closed THEN Ok(s1, None)
-        ELSE Then(OnEntered(s1), LAMBDA t : Hook(Note(t, <<"enter", last, new.label>>), "cb_entered"))
+        ELSE Then(OnEntered(s1, last), LAMBDA t : Hook(Note(t, <<"enter", last, new.label>>), "cb_entered"))
 
 Finally(s) == [s EXCEPT !.failing = FALSE, !.transitioning = FALSE]
 
@@ -285,7 +297,15 @@ NewAct(s, kind, text, cookie) ==
   LET a == Len(s.acts) + 1 IN
   [s EXCEPT !.acts = Append(@, [kind |-> kind, text |-> text, status |-> "pending",
                                 cookie |-> IF cookie = 0 THEN a ELSE cookie])]
-CancelAct(s, a) == IF a # 0 /\ s.acts[a].status = "pending" THEN [s EXCEPT !.acts[a].status = "cancelled"] ELSE s
+\* a resolved action future schedules the wake-up of the RPC reply tasks awaiting it (_schedule_rpc: `await result`)
+WakeRpcs(s, a) ==
+  LET w == {i \in 1..Len(s.rpcs) : s.rpcs[i].st = "await" /\ s.rpcs[i].act = a}
+      RECURSIVE Go(_, _)
+      Go(t, rest) == IF rest = {} THEN t
+                     ELSE LET i == CHOOSE x \in rest : \A y \in rest : x <= y
+                          IN Go([t EXCEPT !.rpcs[i].st = "woken", !.sched = Append(@, "rpcW" \o ToString(i))], rest \ {i})
+  IN Go(s, w)
+CancelAct(s, a) == IF a # 0 /\ s.acts[a].status = "pending" THEN WakeRpcs([s EXCEPT !.acts[a].status = "cancelled"], a) ELSE s
 SetIntr(s, a)   ==                                                \* _set_interrupt_action
   LET lost == s.intr # 0 /\ s.acts[s.intr].status = "pending" /\ s.acts[s.intr].kind = "kill"
       s1   == IF lost THEN Dev(s, "D3") ELSE s                    \* known finding: a pending kill is dropped
@@ -366,8 +386,8 @@ RunAction(s, a, next) ==
           \* (and so cancelled) the very action that is running, both raise InvalidStateError out of step()
           \* (known finding D10)
           IF r.s.acts[a].status # "pending" THEN Err(Dev(r.s, "D10"), "InvalidStateError")
-          ELSE IF r.exc = NoExc THEN Ok([r.s EXCEPT !.acts[a].status = "done"], None)
-          ELSE Ok([r.s EXCEPT !.acts[a].status = "failed:" \o r.exc], None)
+          ELSE IF r.exc = NoExc THEN Ok(WakeRpcs([r.s EXCEPT !.acts[a].status = "done"], a), None)
+          ELSE Ok(WakeRpcs([r.s EXCEPT !.acts[a].status = "failed:" \o r.exc], a), None)
 
 (* ----------------------------------------------------------------------------------------------- *)
 (* the coroutine  step_until_terminated / step                                                     *)
@@ -492,9 +512,12 @@ InitS(pi, pl) ==
    closed |-> FALSE, cleaned |-> 0, outputs |-> <<>>,
    awt |-> [i \in 1..Len(Progs[pi].awt) |-> [key |-> Progs[pi].awt[i], st |-> "pending", val |-> None, reg |-> FALSE, made |-> FALSE]],
    awaiting |-> {}, watched |-> {}, ctx |-> <<>>,
+   comm |-> WithComm, subs |-> WithComm, rpcs |-> <<>>,
    task |-> [pc |-> "top", k |-> 0, fn |-> 0, wfn |-> 0, woken |-> FALSE, err |-> None],
    sched |-> <<>>, occ |-> [h \in PlanHooks |-> 0],
-   log |-> <<>>, bad |-> {}, dev |-> {}, snap |-> [has |-> FALSE], restores |-> 0,
+   \* constructing a process with a communicator announces state_changed.None.created
+   log |-> IF WithComm THEN << <<"bcast", "state_changed", None, "CREATED">> >> ELSE <<>>,
+   bad |-> {}, dev |-> {}, snap |-> [has |-> FALSE], restores |-> 0,
    mon |-> [killAcc |-> FALSE, killTexts |-> {}, cancelled |-> FALSE, lastPlay |-> FALSE,
             resumed |-> FALSE, resumeVal |-> None, expect |-> <<>>]]
 
@@ -527,6 +550,29 @@ AwaitableDone(s, i) ==
           IN IF s2.awaiting = {} THEN SetWF(s2, [st |-> "result", val |-> "NULL", cookie |-> 0]) ELSE s2
      ELSE SetWF(s1, [st |-> "exc", val |-> a.val, cookie |-> 0])
 
+(* ---- remote control: Process.message_receive / broadcast_receive / _schedule_rpc (C16) ------------- *)
+LastCall(s) == s.log[Len(s.log)]
+\* run_callback(): the scheduled control call is THE SAME operator as the direct call
+RpcRun(s, i) ==
+  LET m  == s.rpcs[i]
+      s1 == CASE m.intent = "pause" -> CallPause(s, m.text, "rpc")
+              [] m.intent = "play"  -> CallPlay(s, "rpc")
+              [] m.intent = "kill"  -> CallKill(s, m.text, "rpc")
+      e  == LastCall(s1)          \* <<"call", name, arg, ret, exc, where>>
+      isAct == e[5] = NoExc /\ e[4] \notin {"True", "False", None}
+      a  == IF isAct THEN CHOOSE x \in 1..Len(s1.acts) : e[4] = "act:" \o ToString(x) ELSE 0
+  IN IF e[5] # NoExc THEN [s1 EXCEPT !.rpcs[i].st = "failed:RuntimeError"]           \* wrapped: "Error invoking callback"
+     ELSE IF ~isAct THEN [s1 EXCEPT !.rpcs[i].st = "done:" \o e[4]]
+     ELSE IF s1.acts[a].status = "pending" THEN [s1 EXCEPT !.rpcs[i].st = "await", !.rpcs[i].act = a]
+     ELSE LET st == s1.acts[a].status IN      \* awaiting a future that is already resolved does not yield
+          [s1 EXCEPT !.rpcs[i].act = a,
+                     !.rpcs[i].st = IF st = "done" THEN "done:True" ELSE IF st = "cancelled" THEN "cancelled" ELSE st]
+\* the reply task resumes: the awaited action future is done / failed / cancelled
+RpcWake(s, i) ==
+  LET st == s.acts[s.rpcs[i].act].status IN
+  [s EXCEPT !.rpcs[i].st = IF st = "done" THEN "done:True" ELSE IF st = "cancelled" THEN "cancelled" ELSE st]
+
+IsH(h, prefix, n) == h = prefix \o ToString(n)
 \* one event-loop callback
 Handle(s, h) ==
   CASE h = "task" -> Advance(s)
@@ -534,7 +580,12 @@ Handle(s, h) ==
     [] h = "cbraise" -> LET c == CallbackExcepted(Note(s, <<"cb", "raise">>), "CB")
                         IN IF c.exc # NoExc THEN Note(c.s, <<"cbtaskfailed", c.exc>>) ELSE c.s
     [] h = "trykill" -> Kill(s, "Killed by future being cancelled").s      \* try_killing on the cancelled future
-    [] OTHER -> AwaitableDone(s, CHOOSE i \in 1..Len(s.awt) : h = "aw" \o ToString(i))
+    [] \E i \in 1..Len(s.awt) : IsH(h, "aw", i) -> AwaitableDone(s, CHOOSE i \in 1..Len(s.awt) : IsH(h, "aw", i))
+    \* asyncio.run_coroutine_threadsafe: a trampoline that creates the reply task, then the task itself
+    [] \E i \in 1..Len(s.rpcs) : IsH(h, "rpcT", i) ->
+         [s EXCEPT !.sched = Append(@, "rpc" \o ToString(CHOOSE i \in 1..Len(s.rpcs) : IsH(h, "rpcT", i)))]
+    [] \E i \in 1..Len(s.rpcs) : IsH(h, "rpc", i) -> RpcRun(s, CHOOSE i \in 1..Len(s.rpcs) : IsH(h, "rpc", i))
+    [] \E i \in 1..Len(s.rpcs) : IsH(h, "rpcW", i) -> RpcWake(s, CHOOSE i \in 1..Len(s.rpcs) : IsH(h, "rpcW", i))
 
 \* The steps as pure functions (process state, ready queue) -> [s, rdy]; the actions below, the trace
 \* specification and the twin construction of ProcessFaults all apply these.
@@ -569,6 +620,19 @@ StepComplete(s, rdy, i, oc) ==
   IN [s |-> s1, rdy |-> IF s.awt[i].reg THEN Append(rdy, "aw" \o ToString(i)) ELSE rdy]
 EnvComplete(i, oc) == Offered("complete") /\ i \in 1..Len(S.awt) /\ S.awt[i].made /\ S.awt[i].st = "pending"
                       /\ Env(StepComplete(S, ready, i, oc))
+\* an RPC message (intent, text) or a broadcast (subject = intent) delivered by the communicator
+Deliver(s, rdy, kind, intent, text) ==
+  IF ~s.subs THEN [s |-> Note(s, <<kind, intent, "unroutable">>), rdy |-> rdy]       \* a terminated process no longer receives messages
+  ELSE IF intent = "status" /\ kind = "rpc"
+       THEN [s |-> Note(s, <<"rpc", "status", s.st, s.pausedF # "none">>), rdy |-> rdy]   \* get_status_info: immediate reply
+  ELSE IF intent \notin {"pause", "play", "kill"}
+       THEN [s |-> Note(s, <<kind, intent, IF kind = "rpc" THEN "RemoteException" ELSE "ignored">>), rdy |-> rdy]
+  ELSE LET i == Len(s.rpcs) + 1
+       IN [s |-> Note([s EXCEPT !.rpcs = Append(@, [kind |-> kind, intent |-> intent, text |-> text, st |-> "sched", act |-> 0])],
+                      <<kind, intent, "scheduled">>),
+           rdy |-> Append(rdy, "rpcT" \o ToString(i))]
+EnvRpc(intent, text)   == Offered("rpc") /\ S.comm /\ Env(Deliver(S, ready, "rpc", intent, text))
+EnvBcast(intent, text) == Offered("bcast") /\ S.comm /\ Env(Deliver(S, ready, "bcast", intent, text))
 EnvSave           == Offered("save") /\ ~S.stepping /\ Env([s |-> TakeSnapshot(S), rdy |-> ready])
 EnvRestore        == Offered("restore") /\ S.snap.has /\ Env([s |-> Restore(S), rdy |-> <<"task">>])
 RunHandle         == ready # <<>> /\ LET r == StepRun(S, ready) IN S' = r.s /\ ready' = r.rdy /\ UNCHANGED budget
@@ -578,6 +642,8 @@ OutcomeKinds == {"ok", "fail", "killed"}
 Outcome(i, kind) == CASE kind = "ok" -> <<"ok", "r" \o ToString(i)>>
                       [] kind = "fail" -> <<"fail", "A" \o ToString(i)>>
                       [] OTHER -> <<"killed", "KilledError">>          \* an awaited child process that was killed
+RpcMessages   == {<<"pause", "p1">>, <<"play", None>>, <<"kill", "k1">>, <<"status", None>>, <<"bogus", None>>}
+BcastMessages == {<<"pause", "p1">>, <<"play", None>>, <<"kill", "k1">>, <<"other", None>>}
 KillTexts   == {"k1"}
 PauseTexts  == {"p1"}
 ResumeVals  == {"v1"}
@@ -592,6 +658,8 @@ Next ==
   \/ EnvCallSoon("ok") \/ EnvCallSoon("raise")
   \/ EnvSave \/ EnvRestore
   \/ \E i \in 1..MaxAwaitables, kind \in OutcomeKinds : EnvComplete(i, Outcome(i, kind))
+  \/ \E m \in RpcMessages : EnvRpc(m[1], m[2])
+  \/ \E m \in BcastMessages : EnvBcast(m[1], m[2])
   \/ RunHandle
 
 Spec == Init /\ [][Next]_vars
